@@ -5,9 +5,11 @@ import ast
 from collections import namedtuple
 
 from .. import paths, waiters
-from ..core import FUNC, call_attr, calls_in, const, dotted, norm, text, walk_local
+from ..core import FUNC, call_attr, calls_in, const, dotted, is_const, norm, text, walk_local
 
 EXPLANATION = [
+    'C09.allocator-scan: every identifier a find_free_* allocator returns was individually tested `not in` the table it was given (no block allocation from the first free one).',
+    'C09.response-echo: both channel classes answer a Disconnection Request with the request\'s own identifier, destination_cid and source_cid; the manager matches the response by the echoed source CID.',
     'C09.symmetric: the set of ChannelManager tables a channel of each class is '
     'inserted into (extracted from the insert sites) must be removed again by '
     'on_channel_closed on every path (evaluated per channel class), with the '
@@ -31,6 +33,7 @@ ASSUMPTIONS = [
 
 CM = 'bumble.l2cap.ChannelManager'
 LE = 'bumble.l2cap.LeCreditBasedChannel'
+CC = 'bumble.l2cap.ClassicChannel'
 CL = 'bumble.l2cap.ClassicChannel'
 TABLES = ('channels', 'le_coc_channels')
 
@@ -440,9 +443,8 @@ def l2cap_waiters(ctx):
 
 
 # ---------------------------------------------------------------------------
-def cid_alloc(ctx):
+def cid_alloc(ctx, rule='C09.cid-alloc'):
     R, p = ctx.r, ctx.p
-    rule = 'C09.cid-alloc'
     cm = p.cls(CM)
     if cm is None:
         R.bad(rule, CM, f'anchor missing: {CM}')
@@ -627,7 +629,76 @@ def state_table(ctx):
     R.floor(rule, 6, 'close transitions')
 
 
+
+def allocator_scan(ctx):
+    """A CID allocator hands out only identifiers it has individually found free in the table it was given."""
+    R, p = ctx.r, ctx.p
+    rule = 'C09.allocator-scan'
+    cm = p.cls(CM)
+    if cm is None:
+        R.bad(rule, CM, f'anchor missing: {CM}')
+        return
+    n = 0
+    for name, m in sorted(cm.methods.items()):
+        if not name.startswith('find_free_'):
+            continue
+        params = [a.arg for a in m.args.args if a.arg not in ('self', 'cls')]
+        table = params[0] if params else None
+        rets = [r for r in walk_local(m) if isinstance(r, ast.Return) and r.value is not None and not (is_const(r.value) and const(r.value) is None) and norm(r.value) != '[]']
+        delegates = [c for c in calls_in(m) if (call_attr(c) or '').startswith('find_free_') and c.args and dotted(c.args[0]) == table]
+        if delegates:
+            n += 1
+            R.ok(rule, f'{CM}.{name}', f'delegates to {call_attr(delegates[0])} on the same table', p.loc(m))
+            continue
+        loops = [f for f in walk_local(m) if isinstance(f, ast.For) and isinstance(f.iter, ast.Call) and dotted(f.iter.func) == 'range']
+        ok = bool(loops) and bool(rets)
+        why = ''
+        for r in rets:
+            v = r.value
+            # the returned value is the loop variable, or a list built only from appended loop variables
+            lv = dotted(loops[0].target) if loops else None
+            guarded = [(norm(t), pol) for t, pol in paths.flat_guards(r)]
+            free_test = (f'{lv} in {table}', False) in guarded or (f'{lv} not in {table}', True) in guarded
+            if dotted(v) == lv:
+                ok = ok and free_test
+            else:
+                apps = [c for c in calls_in(m) if call_attr(c) == 'append' and dotted(c.func.value) == dotted(v)]
+                each_tested = bool(apps) and all(dotted(c.args[0]) == lv and ((f'{lv} in {table}', False) in [(norm(t), pol) for t, pol in paths.flat_guards(c)] or (f'{lv} not in {table}', True) in [(norm(t), pol) for t, pol in paths.flat_guards(c)]) for c in apps)
+                ok = ok and each_tested
+                if not each_tested:
+                    why = f'returns `{norm(v)}`'
+        n += 1
+        R.check(ok, rule, f'{CM}.{name}', 'every identifier returned was individually tested against the table', f'{name} hands out identifiers it has not checked against the table ({why}): an identifier still in use by an open channel can be allocated again', p.loc(m))
+    R.check(n >= 3, rule, f'{CM} | allocators', f'{n} allocators analysed', f'only {n} allocators found')
+
+
+def response_echo(ctx):
+    """A Disconnection Response names the channel exactly as the request did (the requester looks it up by those identifiers)."""
+    R, p = ctx.r, ctx.p
+    rule = 'C09.response-echo'
+    n = 0
+    for cq in (CC, LE):
+        fn = p.find(f'{cq}.on_disconnection_request')
+        if fn is None:
+            R.bad(rule, f'{cq}.on_disconnection_request', 'anchor missing')
+            continue
+        req = fn.args.args[1].arg
+        rsp = [c for c in calls_in(fn) if call_attr(c) == 'L2CAP_Disconnection_Response' or dotted(c.func) == 'L2CAP_Disconnection_Response']
+        ok = bool(rsp)
+        for c in rsp:
+            kw = {k.arg: norm(k.value) for k in c.keywords}
+            ok = ok and kw.get('identifier') == f'{req}.identifier' and kw.get('destination_cid') == f'{req}.destination_cid' and kw.get('source_cid') == f'{req}.source_cid'
+        n += 1
+        R.check(ok, rule, f'{cq}.on_disconnection_request | response echoes the request', 'identifier, destination_cid and source_cid are copied from the request',
+                'the Disconnection Response does not echo the request\'s channel identifiers: when the two ends chose different CIDs the requester matches it to another channel (which it closes) or to none (its own close never completes)', p.loc(fn))
+    mr = p.find(f'{CM}.on_l2cap_disconnection_response')
+    if mr is not None:
+        R.check('self.find_channel(connection.handle, response.source_cid)' in norm(mr), rule, f'{CM}.on_l2cap_disconnection_response | lookup', 'the requester finds its channel by the echoed source CID', 'the response is no longer matched by the echoed source CID', p.loc(mr))
+
+
 RULES = [
+    ('C09.allocator-scan', allocator_scan),
+    ('C09.response-echo', response_echo),
     ('C09.symmetric', symmetric),
     ('C09.keying', keying),
     ('C09.waiters', l2cap_waiters),
